@@ -1,6 +1,7 @@
 package main
 
 import (
+	"go/types"
 	"strings"
 
 	"golang.org/x/tools/go/ssa"
@@ -34,6 +35,14 @@ func propC05(c *Check) {
 			}
 			if cl, ok := v.(*ssa.Call); ok && storeBoundary(&cl.Call) {
 				return "result of " + calleeName(&cl.Call)
+			}
+			// pointer-valued map lookups: nil when the key is absent
+			if lk, ok := v.(*ssa.Lookup); ok && !lk.CommaOk {
+				if _, isMap := lk.X.Type().Underlying().(*types.Map); isMap {
+					if _, isPtr := lk.Type().Underlying().(*types.Pointer); isPtr {
+						return "map lookup " + exprText(fn, lk.X) + "[" + exprText(fn, lk.Index) + "]"
+					}
+				}
 			}
 			return ""
 		}
